@@ -242,7 +242,7 @@ CHECKS["C06"] = dict(
          "parameters and a point aliased by a global the function reads; forms f:>p, p∇f, sym∇f, p∂g, .jacobian, loss:>[w b], "
          "loss:>[b w], [w b]∂g: |result - exact| <= 5e-5(1+|exact|) numerically, 5e-4(1+|exact|) for float32 autograd.",
     note="Trusted: TLC, the rendering of trees as Klong source, a Fraction-based size guard. Transcendental functions are outside the "
-         "rational evaluator. Numeric ∇ under torch (float32) is an open finding bounded to 6% error.",
+         "rational evaluator. Numeric ∇ under torch (float32) is an open finding bounded by 0.25 (1+|f(p)|) absolute error.",
     design_ref="DESIGN.md section 5 C06", category="exploration")
 
 CHECKS["C07"] = dict(
